@@ -614,6 +614,27 @@ func (e *Engine) VerifyFunc(fc *FuncContract) *FuncResult {
 			}
 			vc.oblige("ensures", name, out.pc, t, e.fset.Position(fn.Pos()), en.Text)
 		}
+		// ghost frame: ghost variables that are not declared (modifies ghost(x)) keep their entry value
+		if !fc.ModAll && !fc.NoFrame {
+			var gks []string
+			for k := range out.ghost {
+				gks = append(gks, k)
+			}
+			sort.Strings(gks)
+			for _, k := range gks {
+				if fc.Opts["modghost:"+k] != "" {
+					continue
+				}
+				entryV, ok := x.entry.ghost[k]
+				if !ok {
+					entryV = vc.ghostInitial(k, out.ghost[k].Sort)
+				}
+				if entryV.S == out.ghost[k].S {
+					continue
+				}
+				vc.oblige("frame", "frame/ghost:"+k, out.pc, Eq(out.ghost[k], entryV), res.Pos, "ghost variable "+k+" is not in the modifies clause and keeps its value")
+			}
+		}
 		// frame
 		if !fc.ModAll && !fc.NoFrame {
 			if out.epoch != 0 {
